@@ -47,7 +47,15 @@ OUTER:
 			if m.waitDirtyIncomingCh != nil && // Merger is indeed asleep.
 				(m.stackDirtyMid != nil && !m.stackDirtyMid.isEmpty()) &&
 				(m.stackDirtyTop == nil || m.stackDirtyTop.isEmpty()) {
-				m.NotifyMerger("from-persister", false)
+				// The collection lock is held here, so this must not
+				// block: a full pingMergerCh means that the merger
+				// already has pings pending that will wake it up.
+				atomic.AddUint64(&m.stats.TotNotifyMergerBeg, 1)
+				select {
+				case m.pingMergerCh <- ping{kind: "from-persister"}:
+					atomic.AddUint64(&m.stats.TotNotifyMergerEnd, 1)
+				default:
+				}
 			}
 
 			atomic.AddUint64(&m.stats.TotPersisterWaitBeg, 1)
